@@ -234,6 +234,15 @@ VARIANTS += [
 ]
 
 
+VARIANTS += [
+    V("add-missing-denominator", ["C08"], C, "        return (numa * denb + numb * dena) / (dena * denb)", "        return (numa * denb + numb) / (dena * denb)", "RESULT-HOMOG", "__add__", "cross product without the other denominator"),
+    V("mul-missing-denominator", ["C08"], C, "        return (numa * numb) / (dena * denb)", "        return (numa * numb) / dena", "RESULT-HOMOG", "__mul__", "denominator of the right operand dropped"),
+    V("rdiv-not-inverted", ["C08"], C, "        frac = den / num\n        return other * frac", "        frac = den * num\n        return other * frac", "RESULT-HOMOG", "__rtruediv__", "product instead of quotient of numerator and denominator"),
+    V("twin-mul-locals", ["C08"], C, "        return (numa * numb) / (dena * denb)", "        numerator = numa * numb\n        denominator = dena * denb\n        return numerator / denominator", None, None, "fraction product through locals", twin=True),
+    V("twin-add-common-den", ["C08"], C, "        return (numa * denb + numb * dena) / (dena * denb)", "        common = dena * denb\n        return (numa * denb) / common + (numb * dena) / common", None, None, "sum of two fractions over the common denominator", twin=True),
+]
+
+
 def _sources(src_dir: str, v: dict) -> Optional[dict]:
     edits = v.get("edits") or [(v["module"], v["old"], v["new"])]
     out: Dict[str, str] = {}
